@@ -12,8 +12,8 @@ PROP = {
     "units": [{
         "bin": "c14", "pkg": "tm/tmcodec/tmjson", "inject": [("c14", "tm/tmcodec/tmjson")],
         "tests": [
-            {"name": "TestVerifC14RoundTrip", "quick": 8000, "thorough": 1200000, "shards": {"thorough": 16}},
-            {"name": "TestVerifC14Totality", "quick": 6000, "thorough": 960000, "shards": {"thorough": 16}, "salt": 1},
+            {"name": "TestVerifC14RoundTrip", "quick": 8000, "thorough": 960000, "shards": {"thorough": 16}},
+            {"name": "TestVerifC14Totality", "quick": 6000, "thorough": 720000, "shards": {"thorough": 16}, "salt": 1},
         ] + [{"name": n, "mode": "fuzz", "thorough": 45, "workers": 8} for n in _FUZZ],
     }],
 }
